@@ -236,14 +236,16 @@ package transaction
 
 // The commit of one batch: the request names the transaction's start timestamp, the batch's keys and the commit
 // timestamp currently chosen, and goes to the batch's region. The undetermined error is recorded only for the primary batch of a transaction that is not async commit, with the RPC
-// error that was seen; it is cleared only after a
+// error that was seen - and it IS recorded whenever the sender saw an RPC error during the send, also when the send itself
+// then came back with a response (e.g. a region error from a later attempt); it is cleared only after a
 // response (not a region error) to the primary's commit was received; "undetermined result" reported by the store for the
 // primary is passed up as such; success (nil) marks the transaction committed.
 //@ func (actionCommit) handleSingleBatch
-//@   prop C03
+//@   prop C03 C04
 //@   may-panic
 //@   opaque-callee GetKeys primary GetRequestSource NewRegionRequestSender MayBackoffForRegionError relocate doActionOnMutations GetTimestampForCommit ExtractKeyErr MergeCommitReqDetails getDetail GetStoreAddr
 //@   at call(SendReq) assert request: arg_req == req && arg_regionID == batch.region && req.Req.(*kvrpcpb.CommitRequest).StartVersion == c.startTS && req.Req.(*kvrpcpb.CommitRequest).CommitVersion == c.commitTS
+//@   at call(GetRegionError) assert recorded: batch.isPrimary && !c.isAsyncCommit() && sender.rpcError != nil ==> c.mu.undeterminedErr != nil
 //@   at call(setUndeterminedErr#1) assert record: batch.isPrimary && !c.isAsyncCommit() && arg_err != nil
 //@   at call(setUndeterminedErr#2) assert clear: arg_err == nil && batch.isPrimary && resp.Resp != nil && regionErr == nil
 //@   loop 1 invariant req: req != nil && req.Req.(*kvrpcpb.CommitRequest).StartVersion == c.startTS && req.Req.(*kvrpcpb.CommitRequest).CommitVersion == c.commitTS
